@@ -27,31 +27,31 @@ type refDef struct {
 // Every legacy reference used by the generator. The "slot" names the generated operand; the new
 // context (buildContext) puts the same operand where the migrated reference points.
 var refDefs = []refDef{
-	{"contact.age", tN, "n1"},         // -> fields.age
-	{"flow.q1", tN, "n2"},             // -> results.q1 (object with default)
-	{"flow.q1.value", tN, "n2"},       // -> results.q1.value
-	{"extra.n", tN, "n3"},             // -> legacy_extra.n
-	{"child.score", tN, "n4"},         // -> child.results.score
-	{"parent.level.value", tN, "n5"},  // -> parent.results.level.value
-	{"extra.flow.level", tN, "n5"},    // -> parent.results.level
-	{"step.contact.age", tN, "n1"},    // -> fields.age
-	{"contact.name", tT, "s1"},        // -> contact.name
-	{"contact", tT, "s1"},             // -> contact (default)
-	{"contact.nick", tT, "s2"},        // -> fields.nick
-	{"flow.color", tT, "s3"},          // -> results.color
-	{"flow.color.category", tT, "s4"}, // -> results.color.category_localized
-	{"flow.color.text", tT, "s5"},     // -> results.color.input
-	{"step.value", tT, "s6"},          // -> input
-	{"step", tT, "s6"},                // -> input
-	{"step.text", tT, "s6"},           // -> input.text
-	{"extra.s", tT, "s7"},             // -> legacy_extra.s
-	{"extra.addr.city", tT, "s8"},     // -> legacy_extra.addr.city
-	{"extra.results.1", tT, "s9"},     // -> legacy_extra.results["1"]
-	{"flow.2factor", tT, "s10"},       // -> results["2factor"]
+	{"contact.age", tN, "n1"},          // -> fields.age
+	{"flow.q1", tN, "n2"},              // -> results.q1 (object with default)
+	{"flow.q1.value", tN, "n2"},        // -> results.q1.value
+	{"extra.n", tN, "n3"},              // -> legacy_extra.n
+	{"child.score", tN, "n4"},          // -> child.results.score
+	{"parent.level.value", tN, "n5"},   // -> parent.results.level.value
+	{"extra.flow.level", tN, "n5"},     // -> parent.results.level
+	{"step.contact.age", tN, "n1"},     // -> fields.age
+	{"contact.name", tT, "s1"},         // -> contact.name
+	{"contact", tT, "s1"},              // -> contact (default)
+	{"contact.nick", tT, "s2"},         // -> fields.nick
+	{"flow.color", tT, "s3"},           // -> results.color
+	{"flow.color.category", tT, "s4"},  // -> results.color.category_localized
+	{"flow.color.text", tT, "s5"},      // -> results.color.input
+	{"step.value", tT, "s6"},           // -> input
+	{"step", tT, "s6"},                 // -> input
+	{"step.text", tT, "s6"},            // -> input.text
+	{"extra.s", tT, "s7"},              // -> legacy_extra.s
+	{"extra.addr.city", tT, "s8"},      // -> legacy_extra.addr.city
+	{"extra.results.1", tT, "s9"},      // -> legacy_extra.results["1"]
+	{"flow.2factor", tT, "s10"},        // -> results["2factor"]
 	{"parent.contact.name", tT, "s11"}, // -> parent.contact.name
-	{"child.contact.nick", tT, "s12"}, // -> child.fields.nick
-	{"contact.joined", tD, "d1"},      // -> fields.joined
-	{"extra.d", tD, "d2"},             // -> legacy_extra.d
+	{"child.contact.nick", tT, "s12"},  // -> child.fields.nick
+	{"contact.joined", tD, "d1"},       // -> fields.joined
+	{"extra.d", tD, "d2"},              // -> legacy_extra.d
 }
 
 var refsByType = func() map[typ][]refDef {
@@ -694,6 +694,9 @@ func (g *genr) place(inner *node, pos position, depth int) *node {
 // rendered the same way by design, so they are observed through DAY/MONTH/YEAR/WEEKDAY).
 func (g *genr) toTopLevel(n *node) *node {
 	if n.t == tD {
+		if g.r.Chance(0.3) {
+			return call(g.spell("DAYS"), tN, n, call("DATE", tD, num("2000"), num("1"), num("1")))
+		}
 		return call(g.spell(fw.Pick(g.r, []string{"DAY", "MONTH", "YEAR", "WEEKDAY"})), tN, n)
 	}
 	return n
